@@ -206,7 +206,16 @@ def make_resolver(coord, bundle=None):
     return actor
 
 
-def make_type_resolver(key, as_object):
+def make_type_resolver(key, as_object, is_async=False):
+    """is_async: the documented `async def` form of a type resolver (docs/api/type-resolver.md, engine.md)."""
+    if is_async:
+        sync_actor = make_type_resolver(key, as_object)
+
+        async def async_type_actor(result, ctx, info, abstract_type):
+            return sync_actor(result, ctx, info, abstract_type)
+
+        return async_type_actor
+
     def type_actor(result, ctx, info, abstract_type):
         rt = _rt_of(ctx)
         if rt is not None:
@@ -315,7 +324,7 @@ def register_lag(name):
     Directive("lag", schema_name=name)(Lag())
 
 
-def bundle_steps(schema, name, type_as_object=False, bundle=None):
+def bundle_steps(schema, name, type_as_object=False, bundle=None, async_type_resolvers=False):
     """The registrations of a schema model under a schema name, one callable per registered object:
     [(kind, label, callable)] with kind in resolver|type_resolver|scalar|subscription."""
     steps = []
@@ -335,7 +344,7 @@ def bundle_steps(schema, name, type_as_object=False, bundle=None):
                 def reg(td=td, f=f):
                     kw = {}
                     if f.field_type_resolver:
-                        kw["type_resolver"] = make_type_resolver("_tn_field", type_as_object)
+                        kw["type_resolver"] = make_type_resolver("_tn_field", type_as_object, async_type_resolvers and zlib.crc32(("%s.%s" % (td.name, f.name)).encode()) % 2 == 0)
                     if f.ac:
                         kw["arguments_coercer"] = gather_arguments_coercer if f.ac == "gather" else sync_arguments_coercer
                     Resolver("%s.%s" % (td.name, f.name), schema_name=name, list_concurrently=f.lc,
@@ -343,16 +352,17 @@ def bundle_steps(schema, name, type_as_object=False, bundle=None):
                 steps.append(("resolver", "%s.%s" % (td.name, f.name), reg))
         elif td.kind in ("INTERFACE", "UNION") and td.type_resolver:
             steps.append(("type_resolver", td.name,
-                          lambda td=td: TypeResolver(td.name, schema_name=name)(make_type_resolver("_tn_type", type_as_object))))
+                          lambda td=td: TypeResolver(td.name, schema_name=name)(make_type_resolver(
+                              "_tn_type", type_as_object, async_type_resolvers and zlib.crc32(td.name.encode()) % 2 == 1))))
         elif td.kind == "SCALAR" and td.custom:
             steps.append(("scalar", td.name,
                           lambda td=td: Scalar(td.name, schema_name=name)(XStr() if td.custom == "xstr" else XNum())))
     return steps
 
 
-def register_bundle(schema, name, type_as_object=False, bundle=None):
+def register_bundle(schema, name, type_as_object=False, bundle=None, async_type_resolvers=False):
     """Register resolvers / type resolvers / scalars / sources of a schema model under a schema name."""
-    for _, _, fn in bundle_steps(schema, name, type_as_object, bundle):
+    for _, _, fn in bundle_steps(schema, name, type_as_object, bundle, async_type_resolvers):
         fn()
 
 
@@ -363,7 +373,7 @@ ENGINE_CONFIGS = [
 # ... each also built in a different (documented as equivalent) way, with or without custom defaults
 for _i, _c in enumerate(ENGINE_CONFIGS):
     _c.update(build=["create_engine", "ctor", "cook_args", "split", "cook_twice"][_i % 5], dr=_i % 2 == 1, dtr=_i % 3 == 1,
-              ec=_i % 4 == 2, jl=_i % 4 == 3, sdl_file=_i == 5)
+              ec=_i % 4 == 2, jl=_i % 4 == 3, sdl_file=_i == 5, atr=_i % 3 == 2)
 
 
 MARK_SDL = "\ndirective @mark(k: Int!, deep: [[Int]]) on FIELD\n"
@@ -440,7 +450,7 @@ async def cook(schema, name, cfg=None, sdl=None, pre=None, **extra):
     cfg = cfg or {}
     if pre is not None:
         pre(name)
-    register_bundle(schema, name, type_as_object=cfg.get("type_as_object", False))
+    register_bundle(schema, name, type_as_object=cfg.get("type_as_object", False), async_type_resolvers=bool(cfg.get("atr")))
     kw = dict(extra)
     if cfg.get("lc") is not None:
         kw["coerce_list_concurrently"] = cfg["lc"]
@@ -452,7 +462,13 @@ async def cook(schema, name, cfg=None, sdl=None, pre=None, **extra):
     if cfg.get("dr"):
         kw.setdefault("custom_default_resolver", make_custom_default_resolver())
     if cfg.get("dtr"):
-        kw.setdefault("custom_default_type_resolver", make_custom_default_type_resolver())
+        dtr = make_custom_default_type_resolver()
+        if cfg.get("atr"):
+            sync_dtr = dtr
+
+            async def dtr(result, ctx, info, abstract_type):  # the `async def` form shown in docs/api/engine.md
+                return sync_dtr(result, ctx, info, abstract_type)
+        kw.setdefault("custom_default_type_resolver", dtr)
     if cfg.get("ec"):
         kw.setdefault("error_coercer", identity_error_coercer)
     jl_calls = [0]
